@@ -38,6 +38,9 @@ type SchedBus struct {
 	// publishing goroutine stays inside Publish until Release is called - every Publish is a scheduling point.
 	Hold func(*wire.Envelope) bool
 	held chan struct{}
+	// Unreachable lists addresses that never take a message: Publish to one of them returns only when its context ends
+	// (what wire.LocalBus does for a recipient that never subscribes, and a net.Bus whose dialer cannot reach the peer).
+	Unreachable map[wire.AddrKey]bool
 }
 
 // Release lets a publisher that is held inside Publish continue.
@@ -82,10 +85,17 @@ func (b *SchedBus) roundTrip(e *wire.Envelope) (out *wire.Envelope, err error) {
 }
 
 // Publish implements wire.Bus.
-func (b *SchedBus) Publish(_ context.Context, e *wire.Envelope) error {
+func (b *SchedBus) Publish(ctx context.Context, e *wire.Envelope) error {
 	e2, err := b.roundTrip(e)
 	if err != nil {
 		return err
+	}
+	b.mu.Lock()
+	unreachable := b.Unreachable[wire.Keys(e2.Recipient)]
+	b.mu.Unlock()
+	if unreachable {
+		<-ctx.Done()
+		return ctx.Err()
 	}
 	if b.OnPublish != nil {
 		b.OnPublish(e2)
